@@ -1,5 +1,5 @@
 (* C13 — Event hooks fire exactly at their registered occasions, times and markets. *)
-Require Import Pams.Prelude Pams.Match Pams.Market Pams.Sim Pams.SimLift Pams.SimInv Pams.SimProps.
+Require Import Pams.Prelude Pams.Match Pams.Market Pams.Sim Pams.SimLift Pams.SimInv Pams.SimProps Pams.SimHooks.
 From Coq Require Import Permutation.
 Open Scope Z_scope.
 
@@ -30,6 +30,47 @@ Theorem C13_always_hooks_before_timed_hooks : forall s k before t,
   filter (fun h => hook_matches k before h && match h_times h with None => false | Some l => memz t l end) (s_hooks s).
 Proof. exact dispatch_order. Qed.
 Print Assumptions C13_always_hooks_before_timed_hooks.
+
+(* ---- the whole run (order phase) ---- *)
+(* [ustream] keeps, in order, the calls of user-written events' hooks around orders, cancels and fills (UProbe event kind phase),
+   the acceptances (UAcc) and the agent callbacks (UCb); [expectedu H K] computes from the records born in the markets what they
+   call for under the hook table H fixed at setup (K says which events are user-written): per accepted order its before-hooks,
+   the acceptance, the owner's callback, its after-hooks; the same for an accepted cancel; per fill the two callbacks and the
+   after-execution hooks - each hook list being the always-hooks then the hooks registered for that time, each once.
+   EXACTLY ONCE PER MATCHING OCCURRENCE, in this order, nothing else: for every configuration with distinct market ids, every hook
+   table, every tape of runner decisions, every agent behaviour, every fundamental path, whenever the run ends without exception. *)
+Theorem C13_hooks_fire_exactly_at_their_occurrences : forall c tape batches funds, NoDup (map mc_id (c_markets c)) ->
+  let s0 := init_sim c tape batches funds in
+  let s := run c tape batches funds in
+  ok s = true -> ustream (events_of s) = expectedu (s_hooks s0) (kinds s0) (truths (events_of s)).
+Proof. exact hooks_fire_exactly_at_their_occurrences. Qed.
+Print Assumptions C13_hooks_fire_exactly_at_their_occurrences.
+
+(* one request: 'before' hooks run before the acceptance takes effect, the after-hooks after the owner was told *)
+Theorem C13_one_request_calls_its_hooks_around_the_acceptance : forall s r,
+  NoDup (map fst (SimClock.keys s)) -> good s (handle_request s r).
+Proof. exact handle_request_good. Qed.
+Print Assumptions C13_one_request_calls_its_hooks_around_the_acceptance.
+
+Example C13_run_nonvacuous :
+  let c := mkCfg [mkMC 0 (1#1) (100#1) None 1] [mkAC 0 false (1000#1) [(0, 10)]; mkAC 1 false (1000#1) [(0, 10)]]
+                 [mkSC 0 2 true true 2 1 (0#1)]
+                 [mkEC 5 0 true (KProbe [mkHS HOrder true None None false; mkHS HOrder false (Some [0]) None false;
+                                         mkHS HCancel true (Some [1]) None false; mkHS HExec false None None false;
+                                         mkHS HExec false (Some [7]) None false; mkHS HMarket true None None false])] in
+  let tape := [TPerm [0; 1]; TPerm [0; 1]; TDraw (1#2); TDraw (1#2); TPerm [0; 1]; TPerm [0]; TDraw (1#2)]%nat in
+  let batches := [(0, [RNew 1 0 0 false (Some (100#1)) 5 None]); (1, [RNew 2 1 0 true (Some (100#1)) 2 None]);
+                  (0, [Sim.RCancel 1 0 0]); (1, [])] in
+  let funds := [(0, 0, 100#1); (0, 1, 100#1); (0, 2, 100#1)] in
+  let s := run c tape batches funds in
+  ok s = true /\
+  map (fun u => match u with UProbe ev k b => (ev, hkind_code k, b) | UAcc _ => (-1, 0, false) | UCb a k _ => (-2, a * 10 + k, false) end)
+      (ustream (events_of s)) =
+  [(5, 1, true); (-1, 0, false); (-2, 1, false); (5, 1, false);
+   (5, 1, true); (-1, 0, false); (-2, 11, false); (5, 1, false);
+   (-2, 13, false); (-2, 3, false); (5, 3, false);
+   (5, 2, true); (-1, 0, false); (-2, 2, false)].
+Proof. exact hooks_example. Qed.
 
 Example C13_nonvacuous :
   let h1 := mkH 0 HMarket true (Some [1; 1; 2]) None false in
